@@ -175,8 +175,8 @@ impl FwProp for C02 {
     }
     fn n_cases(&self, tier: Tier) -> u64 {
         match tier {
-            Tier::Quick => 60_000,
-            Tier::Thorough => 2_000_000,
+            Tier::Quick => 300_000,
+            Tier::Thorough => 6_000_000,
         }
     }
     fn generate(&self, g: &mut Gen, _tier: Tier, stats: &mut Stats) -> FwCase {
@@ -354,8 +354,8 @@ impl FwProp for C03 {
     }
     fn n_cases(&self, tier: Tier) -> u64 {
         match tier {
-            Tier::Quick => 60_000,
-            Tier::Thorough => 2_000_000,
+            Tier::Quick => 300_000,
+            Tier::Thorough => 6_000_000,
         }
     }
     fn generate(&self, g: &mut Gen, _tier: Tier, stats: &mut Stats) -> FwCase {
